@@ -2,6 +2,7 @@
 from pyvc.dsl import *
 from pyvc.shapes import Optional
 from contracts.common import *
+from contracts.common import _mk_tx, _desc_tx, _bytes_desc, _rb, _good_script
 from contracts.c01 import *
 from contracts.c02 import *
 from contracts.c08 import *
@@ -118,31 +119,6 @@ def _h256(b):
     return _hl.sha256(_hl.sha256(b).digest()).digest()
 
 
-def _rb(rng, n):
-    return bytes(rng.getrandbits(8) for _ in range(n))
-
-
-def _good_script(rng):
-    return rng.choice([b'', b'\x51', b'\x76\xa9\x14' + _rb(rng, 20) + b'\x88\xac', b'\xac' * rng.randint(0, 5),
-                       b'\x02\xab', b'\x4c', b'\xae', b'\x6a\x24\xaa\x21\xa9\xed' + _rb(rng, 31)])
-
-
-def _mk_tx(rng, coinbase=False, witness=False):
-    """a rule-conforming transaction (library constructors only)"""
-    if coinbase:
-        vin = [CTxIn(COutPoint(), CScript(_rb(rng, rng.choice([2, 2, 3, 50, 100]))), rng.getrandbits(32))]
-    else:
-        n = rng.randint(1, 3)
-        vin = [CTxIn(COutPoint(_rb(rng, 32), rng.choice([0, 1, 0xffffffff, rng.getrandbits(32)])),
-                     CScript(_good_script(rng)), rng.getrandbits(32)) for _ in range(n)]
-    vout = [CTxOut(rng.choice([0, 1, 50 * 10**8, M // 4]), CScript(_good_script(rng)))
-            for _ in range(rng.randint(1, 3))]
-    wit = CTxWitness()
-    if witness:
-        wit = CTxWitness([CTxInWitness(CScriptWitness([_rb(rng, rng.choice([1, 32, 72]))])) for _ in vin])
-    return CTransaction(vin, vout, rng.getrandbits(32), rng.choice([1, 2]), wit)
-
-
 def _mutate_tx(rng, tx, coinbase):
     """one violation from the catalogue (or none)"""
     m = CMutableTransaction.from_tx(tx)
@@ -172,30 +148,6 @@ def _mutate_tx(rng, tx, coinbase):
         pad = target - base - 4         # script length prefix grows from 1 to 5 bytes
         m.vout[0].scriptPubKey = CScript(bytes.__new__(CScript, m.vout[0].scriptPubKey + b'\x00' * pad))
     return CTransaction.from_tx(m), kind
-
-
-def _bytes_desc(b, cls='builtins:bytes'):
-    b = bytes(b)
-    if len(b) > 4096 and b == b[:1] * len(b):
-        return {'__repeat__': list(b[:1]), 'n': len(b), 'cls': cls}
-    return {'__bytes__': list(b), 'cls': cls}
-
-
-def _desc_tx(tx, mutable=False):
-    """decodable description of a transaction (constructor calls only; no serialisation involved)"""
-    mm = 'Mutable' if mutable else ''
-    seq = '__list__' if mutable else '__tuple__'
-    vin = [{'__obj__': 'bitcoin.core:C%sTxIn' % mm,
-            'args': [{'__obj__': 'bitcoin.core:C%sOutPoint' % mm, 'args': [_bytes_desc(i.prevout.hash), i.prevout.n]},
-                     _bytes_desc(i.scriptSig, 'bitcoin.core.script:CScript'), i.nSequence]} for i in tx.vin]
-    vout = [{'__obj__': 'bitcoin.core:C%sTxOut' % mm,
-             'args': [o.nValue, _bytes_desc(o.scriptPubKey, 'bitcoin.core.script:CScript')]} for o in tx.vout]
-    wit = {'__obj__': 'bitcoin.core:CTxWitness', 'args': [{'__tuple__': [
-        {'__obj__': 'bitcoin.core:CTxInWitness', 'args': [
-            {'__obj__': 'bitcoin.core.script:CScriptWitness',
-             'args': [{'__tuple__': [_bytes_desc(x) for x in w.scriptWitness.stack]}]}]}
-        for w in tx.wit.vtxinwit]}]}
-    return {'__obj__': 'bitcoin.core:C%sTransaction' % mm, 'args': [{seq: vin}, {seq: vout}, tx.nLockTime, tx.nVersion, wit]}
 
 
 def _gen_checktx(rng, chain=None):
